@@ -32,4 +32,6 @@ def renumber(mol, rng):
     nums = list(mol._atoms)
     perm = nums[:]
     rng.shuffle(perm)
-    return mol.remap(dict(zip(nums, perm)), copy=True)
+    new = mol.copy()
+    new.remap(dict(zip(nums, perm)))
+    return new
